@@ -3,7 +3,8 @@
    unmarshal on every configuration and every document; C13_corr_implies_ok ties them to
    the observation the check compares. *)
 From Errdef Require Import Base.Str Base.Outcome Model.Core Model.Convert Model.Unmarshal Check.UM Check.C13
-  Proofs.C10Proofs Proofs.C13Proofs Model.Resolver Model.ResolverGen Proofs.ResolverProofs Proofs.C13Resolver.
+  Proofs.C10Proofs Proofs.C13Proofs Model.Resolver Model.ResolverGen Proofs.ResolverProofs Proofs.C13Resolver
+  Model.UnmarshalGen Proofs.UnmarshalGenProofs.
 
 Theorem C13_lenient_kind :
   (forall c m k t fs st cs u, u_strict c = false -> u_default c = None -> kind_known c k = false ->
@@ -76,6 +77,13 @@ Print Assumptions C13_cause_failures_are_internal.
 Theorem C13_corr_implies_ok : forall c, UM.corr c = true -> C13.ok c = true.
 Proof. exact corr_implies_ok13. Qed.
 Print Assumptions C13_corr_implies_ok.
+
+(* Unmarshaler.resolveKind, read off the source by srcgen on this run as a decision tree over "the resolver is a
+   DefaultResolver" and "strict mode" with the two leaves ResolveKind (a miss is ErrUnknownKind carrying the kind)
+   and ResolveKindOrDefault, interpreted over a configuration, is the transcription every theorem here is about *)
+Theorem C13_resolve_kind_is_source : forall c k, g_resolve_kind_u c k = resolve_kind_u c k.
+Proof. exact g_resolve_kind_u_ref. Qed.
+Print Assumptions C13_resolve_kind_is_source.
 
 (* The kind resolution of the unmarshaler model is package resolver's, as interpreted from resolver/*.go on this
    run (Model/ResolverGen over Gen/ResolverSrc.v): without a default resolver, or in strict mode, it is
